@@ -220,3 +220,163 @@ func GoodPool(b *[]byte) { anyPool.Put(b) }
 
 // BadPool recycles a handle: the closed handle's owner still holds the pointer.
 func BadPool(d *GoodDir) { anyPool.Put(d) }
+
+// ---- read: io.Reader's contract seen from the caller (R08.9 / R10.6 / R12.9)
+
+// GoodReadLoop copies until an error; the bytes that come with io.EOF are written first.
+func GoodReadLoop(w io.Writer, r io.Reader, buf []byte) error {
+	for {
+		n, err := r.Read(buf)
+		if n > 0 {
+			if _, werr := w.Write(buf[:n]); werr != nil {
+				return werr
+			}
+		}
+		if err == io.EOF {
+			return nil
+		}
+		if err != nil {
+			return err
+		}
+	}
+}
+
+// GoodFillLoop fills p completely; leaving the loop because the buffer is full is not a short count.
+func GoodFillLoop(r io.Reader, p []byte) (total int, err error) {
+	for total < len(p) && err == nil {
+		var n int
+		n, err = r.Read(p[total:])
+		total += n
+	}
+	return total, err
+}
+
+// BadSingleRead treats one Read as the whole content.
+func BadSingleRead(r io.Reader, size int) ([]byte, error) {
+	data := make([]byte, size)
+	n, err := r.Read(data)
+	if err == io.EOF {
+		err = nil
+	}
+	return data[:n], err
+}
+
+// BadShortExit takes a short count for the end of the data.
+func BadShortExit(w io.Writer, r io.Reader, buf []byte) error {
+	for {
+		n, err := r.Read(buf)
+		if n > 0 {
+			if _, werr := w.Write(buf[:n]); werr != nil {
+				return werr
+			}
+		}
+		if err != nil && err != io.EOF {
+			return err
+		}
+		if err != nil || n < len(buf) {
+			return nil
+		}
+	}
+}
+
+// BadEOFTail drops the bytes that arrive together with io.EOF.
+func BadEOFTail(w io.Writer, r io.Reader, buf []byte) error {
+	for {
+		n, err := r.Read(buf)
+		if err == io.EOF {
+			return nil
+		}
+		if err != nil {
+			return err
+		}
+		if _, err = w.Write(buf[:n]); err != nil {
+			return err
+		}
+	}
+}
+
+// ---- eofmap: a truncated stream is not a regular end (R13.10)
+
+// BadEOFMap hides a truncated stream behind io.EOF.
+func BadEOFMap(r io.Reader, p []byte) (n int, err error) {
+	n, err = io.ReadFull(r, p)
+	if err == io.ErrUnexpectedEOF {
+		err = io.EOF
+	}
+	return
+}
+
+// BadEOFBreak ends its loop normally on a truncated stream.
+func BadEOFBreak(next func() error) error {
+	for {
+		err := next()
+		if err == io.EOF || err == io.ErrUnexpectedEOF {
+			break
+		}
+		if err != nil {
+			return err
+		}
+	}
+	return nil
+}
+
+// GoodEOFKeep keeps the truncation an error.
+func GoodEOFKeep(r io.Reader, p []byte) (int, error) {
+	n, err := io.ReadFull(r, p)
+	if errors.Is(err, io.ErrUnexpectedEOF) {
+		return n, &fs.PathError{Op: "read", Path: "entry", Err: err}
+	}
+	return n, err
+}
+
+// ---- once: run-once evaluation keeps its error (R14.7) ----
+
+type lister interface{ List() ([]string, error) }
+
+type GoodMemo struct {
+	src   lister
+	once  sync.Once
+	names []string
+	err   error
+}
+
+func (m *GoodMemo) Names() ([]string, error) {
+	m.once.Do(func() { m.names, m.err = m.src.List() })
+	return m.names, m.err
+}
+
+type BadMemo struct {
+	src   lister
+	once  sync.Once
+	names []string
+}
+
+func (m *BadMemo) Names() ([]string, error) {
+	var err error
+	m.once.Do(func() { m.names, err = m.src.List() })
+	return m.names, err
+}
+
+// ---- notexist: the operation's error comes first (R14.8) ----
+
+type OpResult struct {
+	Record interface{}
+	Err    error
+}
+
+func GoodFirst(results []OpResult) (interface{}, error) {
+	if results[0].Err != nil {
+		return nil, results[0].Err
+	}
+	if results[0].Record == nil {
+		return nil, fs.ErrNotExist
+	}
+	return results[0].Record, nil
+}
+
+func BadFirst(results []OpResult) (interface{}, error) {
+	if results[0].Record == nil {
+		return nil, fs.ErrNotExist
+	}
+	return results[0].Record, results[0].Err
+}
